@@ -180,6 +180,10 @@ ENUM_BLOCKS = part([ENUM_POINTS[i:i + 16] for i in range(0, len(ENUM_POINTS), 16
 TWO = ['a', '-', '\n', ' ', '0', '\\', '\x00', '\x7f', '\x80', 'é', '"']
 
 
+_XML_SOUP = bs4.BeautifulSoup('<r><p/><p/></r>', 'xml')
+_HTML_SOUP = bs4.BeautifulSoup('<div><p></p><p></p></div>', 'html.parser')
+
+
 def position_enum_ok(bi: int) -> bool:
     """
     pre: 0 <= bi < len(ENUM_BLOCKS)
@@ -205,4 +209,15 @@ def position_enum_ok(bi: int) -> bool:
                     ok = False
                 if not ok:
                     return ret(False)
+            # on trees whose class attribute is one string (XML trees, attributes assigned as text): the class list is split
+            # at CSS white space only, so 'a' + c + 'b' stays one class for every other character
+            if c not in ' \t\n\r\f\x00':
+                name = 'a' + c + 'b'
+                for soup in (_XML_SOUP, _HTML_SOUP):
+                    e1, e2 = soup.find_all('p')
+                    e1.attrs['class'] = name + ' zz'
+                    e2.attrs['class'] = 'a b zz ' + c
+                    got = sv.select('.' + cp.escape(name), soup)
+                    if not (len(got) == 1 and got[0] is e1):
+                        return ret(False)
     return ret(ok)
